@@ -257,6 +257,10 @@ func UnmarshalValue(ctx Ctx, target reflect.Value, cont Sink) Sink {
 				return v.UnmarshalSB(ctx, cont)(token)
 
 			case encoding.BinaryUnmarshaler:
+				if token.Kind == KindTypeName {
+					// the type name of a registered type; the value follows
+					return notNull(ctx, ctx.Unmarshal(ctx, target, cont)), nil
+				}
 				if token.Invalid() {
 					return nil, we.With(
 						TypeMismatch(KindInvalid, reflect.String),
@@ -276,6 +280,9 @@ func UnmarshalValue(ctx Ctx, target reflect.Value, cont Sink) Sink {
 				return cont, nil
 
 			case encoding.TextUnmarshaler:
+				if token.Kind == KindTypeName {
+					return notNull(ctx, ctx.Unmarshal(ctx, target, cont)), nil
+				}
 				if token.Invalid() {
 					return nil, we.With(
 						TypeMismatch(KindInvalid, reflect.String),
@@ -325,6 +332,18 @@ func UnmarshalValue(ctx Ctx, target reflect.Value, cont Sink) Sink {
 			valueKind = valueType.Kind()
 		default:
 			return nil, we.With(BadTargetType)(UnmarshalError)
+		}
+
+		if token.Kind == KindTypeName {
+			baseType := valueType
+			for baseType.Kind() == reflect.Ptr {
+				baseType = baseType.Elem()
+			}
+			if baseType.Kind() != reflect.Interface {
+				// a concrete target needs no type name; skip it before any pointer is
+				// allocated, so that a following Nil leaves the target untouched
+				return notNull(ctx, ctx.Unmarshal(ctx, target, cont)), nil
+			}
 		}
 
 		hasConcreteType := false
